@@ -211,7 +211,7 @@ Noise(S0, rv) ==
       [] k = 2 -> << TickAct(1 + (rv[4] % 4)) >>
       [] k = 3 -> << CreateAct(d, ParDiff(StdPar, Sel(MustMatch \cup MayDiffer, rv[4])), <<IF rv[4] % 5 = 0 THEN 1 ELSE 0, 1 + (rv[5] % NH)>>,
                                Clamp(S0.now - (rv[6] % (TP + 2)), 1, S0.now + 1), "r1", NvOf(rv[7])) >>
-      [] k = 4 -> << CreateAct(d, [StdPar EXCEPT !.tp = UBD0 + (rv[4] % 2) * (0 - 1)], <<0, 1>>, S0.now, "r1", "V") >>
+      [] k = 4 -> << CreateAct(d, [StdPar EXCEPT !.tp = UBD0 - 2 * (rv[4] % 2)], <<0, 1>>, S0.now, "r1", "V") >>
       [] k = 5 -> << TickAct(0) >>
 
 Plan(S0, rv) ==
